@@ -207,6 +207,16 @@ Definition get_object_version (s : state) (b k : list N) (id : N) : obj_result :
       end
   end.
 
+(* MergeMetadata (backend.go), called by every backend's PutObject: metadata the previous current
+   object of the key carries is kept for every header the new upload does not send itself (a
+   header sent with an empty value counts as sent); nothing is carried over from a delete marker *)
+Definition meta_has (k : list N) (m : meta) : bool := existsb (fun kv => beq k (fst kv)) m.
+Definition carry_meta (s : state) (b k : list N) (m : meta) : meta :=
+  match get_object s b k with
+  | OObj v _ => if vd_marker v then m else m ++ filter (fun kv => negb (meta_has (fst kv) m)) (vd_meta v)
+  | OErr _ => m
+  end.
+
 Definition put_object (s : state) (b k body : list N) (m : meta) : state * (option err * option N) :=
   match get_bucket s b with
   | None => (s, (Some ENoSuchBucket, None))
